@@ -355,6 +355,7 @@ def u_error_change(root):
     mk(eng, "CostFunction", "is_data_compatible", result=lambda vw: VTuple([VBool(compat), VStr("reason")]))
 
     def init2(e, st, me_):
+        e.write_field(st, me_, "_fitter", VExternal("fitter", {}))
         st.assume(z3.And(dc != NULL, pm != NULL, dc != pm, e.read_field(st, me_, "_cost_function").e != NULL))
         e.write_field(st, VRef(pm, "DataContainerBase"), "_on_error_change_callback", VNone())
         return {"new_data": VOpaque("new_data")}
